@@ -73,6 +73,13 @@ def handle : Handler
       let hh : Option Host := h.map (fun x => if hk == "6" then .v6 x else .name x)
       some (showCps (render ⟨tls == "1", u, p, hh, po, v, os⟩))
     | _, _, _, _, _, _ => some "bad-op"
+  | ["c18.renderc", caps, tls, user, pass, hk, host, port, vhost, opts] =>
+    match parseOptCps user, parseOptCps pass, parseOptCps host, parseOptNat port, parseOptCps vhost, parseOpts opts with
+    | some u, some p, some h, some po, some v, some os =>
+      let hh : Option Host := h.map (fun x => if hk == "6" then .v6 x else .name x)
+      let b (i : Nat) : Bool := (caps.toList.drop i).head? == some '1'
+      some (showCps (renderCased ⟨b 0, b 1, b 2, b 3, b 4⟩ ⟨tls == "1", u, p, hh, po, v, os⟩))
+    | _, _, _, _, _, _ => some "bad-op"
   | _ => none
 
 end Driver.C18
